@@ -439,10 +439,11 @@ structure UrlAcc where
   documentation : Option String := none
   custom : List (String × String) := []
 
-/-- `[project].readme.text`: at this commit the text is joined to the project root *as a path*
-(`root / readme["text"]`); the harness passes what `str(root / text)` evaluates to as `readmeTextAsStored`. -/
+/-- `[project].readme.text` is stored verbatim (`package.readme_content = readme["text"]`).
+`readmeTextAsStored` (what the real `package.readme_content` holds) is kept in the signature for the driver
+protocol but no longer used: before the fix the text was joined to the project root as a path. -/
 def configure (proj : ProjectT) (tool : ToolT) (spdx : String → Option License)
-    (readmeTextAsStored : Option String) (extras requiresDist : List String) : Pkg :=
+    (_readmeTextAsStored : Option String) (extras requiresDist : List String) : Pkg :=
   let authors := if proj.authors.isEmpty then tool.authors else proj.authors.map Person.text
   let maintainers := if proj.maintainers.isEmpty then tool.maintainers else proj.maintainers.map Person.text
   let description := match truthy proj.description with | some d => d | none => tool.description.getD ""
@@ -475,7 +476,7 @@ def configure (proj : ProjectT) (tool : ToolT) (spdx : String → Option License
     match proj.readme with
     | some (.path p) => if p = "" then (tool.readmes.filter (· ≠ ""), none, none) else ([p], none, none)
     | some (.file p ct) => ([p], some ct, none)
-    | some (.text _ ct) => ([], some ct, readmeTextAsStored)
+    | some (.text t ct) => ([], some ct, some t)
     | none => (tool.readmes.filter (· ≠ ""), none, none)
   -- `_configure_package_dependencies`: tool.poetry.dependencies.python sets python_versions (after
   -- requires_python, whose setter also sets python_versions)
